@@ -192,6 +192,36 @@ pub fn run_c01(rep: &mut StageReport, tier: &str, _seed: u64) {
             Err(e) => rep.inconclusive(&e),
         }
     }
+    // first registrations on fresh topics racing each other
+    {
+        rep.evaluations += 1;
+        match gen_certs() {
+            Err(e) => rep.inconclusive(&format!("certs: {e}")),
+            Ok(certs) => {
+                let rounds = if tier == "thorough" { 300 } else { 45 };
+                let r = rt.block_on(async {
+                    let server = start_server(&certs).map_err(|e| e.to_string())?;
+                    let r = tokio::time::timeout(Duration::from_secs(300), super::wirepeers::concurrent_first_registrations(server.addr, &certs, rounds, 1)).await.map_err(|_| "watchdog: concurrent-registration scenario did not finish in 300 s".to_string())?;
+                    server.stop();
+                    r
+                });
+                match r {
+                    Ok((n, findings)) => {
+                        rep.count("l3_fresh_topics_with_racing_first_registrations", n);
+                        if findings.iter().all(|f| f.0.starts_with("mixed-patterns")) {
+                            rep.distinct.insert(0xC01_E000);
+                        }
+                        // (a topic that accepted both messaging patterns is C11's finding, not C01's)
+                        for (sig, detail) in findings.into_iter().filter(|f| !f.0.starts_with("mixed-patterns")) {
+                            let replay = write_replay("C01", &format!("l3-{}", sig.replace('/', "_")), 0, json!({"property": "C01", "detail": detail}));
+                            rep.violation(Violation { signature: format!("C01/l3/{}", sig), detail, replay });
+                        }
+                    }
+                    Err(e) => rep.inconclusive(&e),
+                }
+            }
+        }
+    }
     // frames at the size limit from an independent implementation of the wire format
     for i in 0..(if tier == "thorough" { 4 } else { 1 }) {
         rep.evaluations += 1;
